@@ -781,6 +781,18 @@ class Canon:
             key = fields[key] if -len(fields) <= key < len(fields) else None
         return vals.get(key)
 
+    def as_tuple(self, e):
+        """a tuple display, or the construction of a module level namedtuple as the tuple display of its fields in order; else None"""
+        if isinstance(e, ast.Tuple):
+            return e
+        if isinstance(e, ast.Call) and isinstance(e.func, ast.Name):
+            fields = self._nt_fields(e.func.id)
+            if fields:
+                elts = [self._nt_component(e, f) for f in fields]
+                if all(x is not None for x in elts) and len(e.args) + len(e.keywords) == len(fields):
+                    return ast.Tuple(elts=elts, ctx=ast.Load())
+        return None
+
     def _fold(self, new):
         if isinstance(new, ast.Attribute) and isinstance(new.value, ast.Call):
             c = self._nt_component(new.value, new.attr)
